@@ -352,6 +352,36 @@ func verif_ServerTransportConfig_Complete(c *ServerTransportConfig) {
 	}
 }
 
+// ClientTransportConfig.Complete, the client's side of the same defaults (C14
+// "dead peers are detected within the configured heartbeat timeout"): a
+// configured heartbeat interval and a configured heartbeat timeout are each
+// kept as configured - neither is derived from the other - and when none is
+// configured the application-level heartbeat is off (-1, -1) only with tcpMux
+// on, and 30 s / 90 s otherwise (a timeout of three intervals, so one late pong
+// does not end a healthy session).
+//
+//verif:contract (*~/pkg/config/v1.ClientTransportConfig).Complete
+//verif:props C14 C18
+func verif_ClientTransportConfig_Complete(c *ClientTransportConfig) {
+	iv0, to0 := c.HeartbeatInterval, c.HeartbeatTimeout
+	muxSet := c.TCPMux != nil
+	muxOn := muxSet && *c.TCPMux
+	c.Complete()
+	verif.Ensures(c.TCPMux != nil, "tcp_mux_is_decided")
+	if iv0 != 0 {
+		verif.Ensures(c.HeartbeatInterval == iv0, "configured_heartbeat_interval_kept")
+	}
+	if to0 != 0 {
+		verif.Ensures(c.HeartbeatTimeout == to0, "configured_heartbeat_timeout_kept")
+	}
+	if muxSet && muxOn {
+		verif.Ensures((iv0 != 0 || c.HeartbeatInterval == -1) && (to0 != 0 || c.HeartbeatTimeout == -1), "no_application_heartbeat_by_default_with_tcp_mux")
+	} else if muxSet {
+		// (tcpMux left unset: not decided here, as for the server)
+		verif.Ensures((iv0 != 0 || c.HeartbeatInterval == 30) && (to0 != 0 || c.HeartbeatTimeout == 90), "defaults_of_30s_and_90s_without_tcp_mux")
+	}
+}
+
 // The typed sub-decoders (proxy, visitor, and their plugin options) cannot see
 // the parent decoder's options; they read the package-level strict switch (set
 // by LoadConfigure, see pkg/config): the options value is decoded by a decoder
